@@ -1,6 +1,7 @@
 """Per-property plans for bin/check: which harness streams run, which traces are replayed
 on the Coq model, and what the evidence says about assumptions and the trusted base."""
 import json, os
+VERIF_DIR = os.path.dirname(os.path.dirname(os.path.abspath(__file__)))
 
 TB_COMMON = [
     "Coq 8.16.1 kernel (coqc); vm_compute for trace replay and witnesses; no native_compute",
@@ -112,7 +113,19 @@ def run_kindtrace(ctx, K):
         K.run_tool(ctx, b, ["-n", str(tier_n(ctx, 150, 3000)), "-seed", str(ctx.seed), "-claim", ctx.pid], "kinds")
 
 
+def run_corpus(ctx, K):
+    """minimised failures found earlier (corpus/<ID>/*.json with a replayable history) run first"""
+    d = os.path.join(VERIF_DIR, "corpus", ctx.pid)
+    if not os.path.isdir(d):
+        return
+    b = K.go_build(ctx, "incrtrace")
+    if b:
+        inc = ENGINE_INCLUDES.get(ctx.pid, "")
+        K.run_tool(ctx, b, ["-replay", d, "-claim", ctx.pid] + (["-include", inc] if inc else []), "corpus")
+
+
 def run_engine(ctx, K):
+    run_corpus(ctx, K)
     if ctx.pid in ("C01", "C11"):
         run_kindtrace(ctx, K)
     if ctx.pid in ("C01", "C02", "C03", "C05", "C06", "C13"):
